@@ -22,7 +22,7 @@ INVALID = [
 
 def texts(rng):
     valid = []
-    for name in ("e", "e", "f", "exp2"):
+    for name in ("e", "e", "f", "exp2", rng.choice(["str", "map", "partial", "deterministic_choice", "recompile", "run_experiment", "_checksum"])):
         salt = rng.choice(["", 'salt: "s1"', 'salt: "s2"'])
         w1, w2 = rng.choice([(1, 1), (1, 9), (9, 1), (0, 1), (3, 2)])
         valid.append(f'def {name} {{ {salt} splitters: u return "A" weighted {w1}, "B" weighted {w2} }}')
